@@ -277,12 +277,13 @@ theorem defined_needed :
     subst hc
     exact ⟨rfl, FG_bin.mpr ⟨rfl, FG_num _, FG_bin.mpr ⟨rfl, FG_var.mpr sx, FG_num _⟩⟩, FG_num _⟩
 
-/-! ### … and finite literals do not suffice: the linearizer's own `0 * _` shortcut -/
+/-! ### regression: the linearizer's `0 * _` shortcut no longer hides a division by zero (fix 5a25b35) -/
 
 /-- `min x  s.t.  c: 0 * (x / 0) ≤ 1`, `x` a free real.  Every literal is finite.  Since rooc 9f62afd `simplify`
-keeps the product, but `Exp::linearize` on a product with the constant factor `0` returns the constant `0`
-without visiting the other factor: the division by zero is never reported and the row is `0 ≤ 1`.
-(Real code, HEAD 8a8f98f: `min x s.t. 0 * (x / 0) <= 1, x >= 2` gives `0 <= 1`, `x >= 2`, optimum 2.) -/
+keeps the product; before rooc 5a25b35 `Exp::linearize` on a product with the constant factor `0` returned the
+constant `0` without visiting the other factor, so the row was `0 ≤ 1` and the linear model accepted every
+assignment although the source constraint has no value at any (finding, HEAD 8a8f98f).  Now the factor is
+lowered whenever it may be undefined, and the compilation fails with `divisionByZero`. -/
 def exUndefDivL : Exp (Ext K) := .bin .mul (.num (.fin 0)) (.bin .div (.var "x") (.num (.fin 0)))
 
 def exUndefDivC : Constraint (Ext K) :=
@@ -301,77 +302,118 @@ theorem exUndefDiv_norm_sub : normalizeExp (.bin .sub exUndefDivL (.num (.fin 1)
   simp [exUndefDivL, normalizeExp, flattenFuel, flattenF, simplify, mulCore, divCore, subCore, isNumEq,
     mayBeUndefined, ext_eq_fin, Arith.eq, Ext.eq, isNonzeroLit, Arith.zero, flattenF.flattenMulRest, isAddSub]
 
-def exUndefDivRow : MidRow (Ext K) := { name := "c", lhs := [], rhs := Ext.fin 1, cmp := .le }
+theorem bind_err {α β γ : Type} [Arith α] (x : M α β) (f : β → M α γ) (s : St α) (e : LinErr) :
+    (x >>= f) s = .error e ↔ x s = .error e ∨ ∃ a s1, x s = .ok (a, s1) ∧ f a s1 = .error e := by
+  show (StateT.bind x f s) = _ ↔ _
+  unfold StateT.bind
+  cases h : x s with
+  | error e' => simp [bind, Except.bind]
+  | ok p => obtain ⟨a, s1⟩ := p; simp [bind, Except.bind]
 
-theorem exUndefDiv_proc (s : St (Ext K)) : processConstraint (exUndefDivC : Constraint (Ext K)) s
-    = .ok ((), { s with rows := s.rows ++ [exUndefDivRow] }) := by
-  unfold processConstraint dispatch exUndefDivC
-  simp only [bind_ok, get_ok, simplifyFlat_ok]
-  refine ⟨_, _, ⟨_, exUndefDiv_norm_lhs, rfl⟩, _, _, ⟨_, exUndef_norm_rhs, rfl⟩, ?_⟩
-  simp only [Bool.false_eq_true, if_false, bind_ok, get_ok]
+theorem exUndefDiv_linExp (req : Req) (s : St (Ext K)) :
+    linExp (.bin .sub exUndefDivL (.num (.fin 1)) : Exp (Ext K)) req s = .error .divisionByZero := by
+  rw [linExp, bind_err]
+  left
+  rw [exUndefDivL, linExp]
+  have hg : (Arith.eq (Ext.fin (0 : K)) (Arith.zero : Ext K) &&
+      !(Exp.mayBeUndefined (.bin .div (.var "x") (.num (.fin 0)) : Exp (Ext K)))) = false := by
+    simp [mayBeUndefined, isNonzeroLit, Arith.ne, Arith.eq, Ext.eq, Arith.zero]
+  rw [hg]
+  simp only [Bool.false_eq_true, if_false]
+  rw [bind_err]
+  left
+  rw [linExp]
+  have h0 : Arith.eq (Ext.fin (0 : K)) (Arith.zero : Ext K) = true := by simp [Arith.eq, Ext.eq, Arith.zero]
+  rw [if_pos h0]
+  rfl
+
+theorem exUndefDiv_proc (s : St (Ext K)) :
+    processConstraint (exUndefDivC : Constraint (Ext K)) s = .error .divisionByZero := by
+  unfold processConstraint
+  rw [bind_err]
+  right
+  refine ⟨exUndefDivL, s, (simplifyFlat_ok _ _ _).mpr ⟨_, exUndefDiv_norm_lhs, rfl⟩, ?_⟩
+  rw [bind_err]
+  right
+  refine ⟨.num (.fin 1), s, (simplifyFlat_ok _ _ _).mpr ⟨_, exUndef_norm_rhs, rfl⟩, ?_⟩
+  show dispatch "c" exUndefDivL .le (.num (.fin 1)) s = _
+  unfold dispatch
+  rw [bind_err]
+  right
   refine ⟨s, s, rfl, ?_⟩
   have : tryNormalize s.domain (exUndefDivL : Exp (Ext K)) .le (.num (.fin 1)) = none := by
     simp [tryNormalize, isLogicValue, exUndefDivL]
   simp only [this]
-  rw [emitConstraint_ok]
-  refine ⟨_, ⟨[], Ext.fin (-1)⟩, s, exUndefDiv_norm_sub, ?_, ?_⟩
-  · simp [exUndefDivL, linExp, bind_ok, pure_ok, Arith.eq, Ext.eq, Arith.zero, ar_zero]
-    simp [Ctx.mergeSub, Ctx.fromRhs, Ctx.addRhs, ar_zero, Ctx.new, Ext.add, Ext.neg, Arith.zero, Arith.add, Arith.neg]
-  · simp [exUndefDivRow, Ext.neg, Arith.neg]
+  unfold emitConstraint
+  simp only [exUndefDiv_norm_sub]
+  rw [bind_err]
+  left
+  exact exUndefDiv_linExp _ s
 
 theorem exUndefDiv_drain (s : St (Ext K)) (hs : s.queue = (exUndefDiv : Model (Ext K)).constraints) :
-    drain drainFuel s = .ok ((), { s with queue := [], rows := s.rows ++ [exUndefDivRow] }) := by
-  have h1 : drainFuel = 999998 + 1 + 1 := rfl
-  rw [h1, drain_succ]
-  simp only [bind_ok, get_ok]
+    drain drainFuel s = .error .divisionByZero := by
+  have h1 : drainFuel = 999999 + 1 := rfl
+  rw [h1, drain_succ, bind_err]
+  right
   refine ⟨s, s, rfl, ?_⟩
-  simp only [hs, exUndefDiv, bind_ok, set_ok]
-  refine ⟨_, _, rfl, _, _, exUndefDiv_proc _, ?_⟩
-  rw [drain_succ]
-  simp only [bind_ok, get_ok]
-  exact ⟨_, _, rfl, by simp [pure_ok]⟩
+  simp only [hs, exUndefDiv]
+  rw [bind_err]
+  right
+  refine ⟨⟨⟩, _, rfl, ?_⟩
+  rw [bind_err]
+  left
+  exact exUndefDiv_proc _
 
-noncomputable def exUndefDivLM : LinModel (Ext K) :=
-  assemble exUndefDiv (Ctx.fromVar "x" Arith.one)
-    { queue := [], rows := [exUndefDivRow], domain := (exUndefDiv : Model (Ext K)).domain, bounds := [] }
-
-theorem exUndefDiv_ok :
-    linearizeWith (exUndefDiv : Model (Ext K)) [] (exUndefDiv : Model (Ext K)).domain = .ok exUndefDivLM := by
-  let s0 : St (Ext K) := { queue := (exUndefDiv : Model (Ext K)).constraints, domain := (exUndefDiv : Model (Ext K)).domain, bounds := [] }
-  refine (linearizeWith_ok_iff _ _ _ _).mpr
-    ⟨.var "x", s0, Ctx.fromVar "x" Arith.one, s0, _, ?_, ?_, exUndefDiv_drain s0 rfl, rfl⟩
-  · simp [simplifyFlat, normalizeExp, flattenFuel, flattenF, simplify, pure_ok, exUndefDiv, s0]
-  · simp [linExp, pure_ok]
-
-theorem exUndefDiv_linFeasible (ρ : String → K) : linFeasible (exUndefDivLM : LinModel (Ext K)) ρ = true := by
-  simp [exUndefDivLM, exUndefDivRow, assemble, linFeasible, exUndefDiv, dedupNames, sortStr, insertSortedDup,
-    inDomain, geExt, leExt, rowHolds, cmpK, extractCoeffs, dotK]
-
-theorem exUndefDiv_not_srcFeasible (ρ : String → K) : ¬ srcFeasible (exUndefDiv : Model (Ext K)) ρ = true := by
-  intro h
-  have := ((srcFeasible_iff _ _).mp h).1 exUndefDivC (by simp [exUndefDiv])
-  simp [constraintHolds, exUndefDivC, exUndefDivL, eval, binVal] at this
-
-/-- **finite literals do not replace definedness**: `c: 0 * (x / 0) ≤ 1` (all literals finite) is undefined at
-every assignment; the linear model is the row `0 ≤ 1` and accepts every assignment. -/
-theorem defined_needed_finite :
-    ∃ (m : Model (Ext K)) (b : BoundsMap (Ext K)) (d : List (DomVar (Ext K))) (lm : LinModel (Ext K)),
-      linearizeWith m b d = .ok lm ∧ DomRel m d ∧ BoxEnforced b d ∧
-      (∀ c ∈ m.constraints, c.isAssert = false ∧ FG true (inScope d) c.lhs ∧ FG true (inScope d) c.rhs ∧
-        finiteLits c.lhs = true ∧ finiteLits c.rhs = true) ∧
-      (∀ ρ : String → K, ¬ srcFeasible m ρ = true) ∧ (∀ ρ : String → K, linFeasible lm ρ = true) := by
-  have sx : inScope (exUndefDiv : Model (Ext K)).domain "x" :=
-    ⟨{ name := "x", ty := .real .ninf .pinf, usage := 1 }, by simp [exUndefDiv], rfl, by simp⟩
-  refine ⟨exUndefDiv, [], exUndefDiv.domain, exUndefDivLM, exUndefDiv_ok, ⟨by simp [exUndefDiv], fun _ h => h, ?_, ?_⟩,
-    ?_, ?_, exUndefDiv_not_srcFeasible, exUndefDiv_linFeasible⟩
-  · intro ρ h; exact ((srcFeasible_iff _ ρ).mp h).2
-  · intro dv hdv hu; exact ⟨dv, hdv, rfl, hu⟩
-  · intro ρ _ n bd _ hl; simp [lookupB] at hl
-  · intro c hc
-    simp only [exUndefDiv, List.mem_singleton] at hc
-    subst hc
-    exact ⟨rfl, FG_bin.mpr ⟨rfl, FG_num _, FG_bin.mpr ⟨rfl, FG_var.mpr sx, FG_num _⟩⟩, FG_num _,
-      by simp [exUndefDivC, exUndefDivL, finiteLits, isFin], by simp [exUndefDivC, finiteLits, isFin]⟩
+/-- **regression for the repaired finding**: every literal of `c: 0 * (x / 0) ≤ 1` is finite and the constraint
+has no value at any assignment; the compilation is now rejected with `divisionByZero` (before rooc 5a25b35 it
+produced the row `0 ≤ 1`). -/
+theorem exUndefDiv_error :
+    linearizeWith (exUndefDiv : Model (Ext K)) [] (exUndefDiv : Model (Ext K)).domain = .error .divisionByZero := by
+  cases h : linearizeWith (exUndefDiv : Model (Ext K)) [] (exUndefDiv : Model (Ext K)).domain with
+  | ok lm =>
+    exfalso
+    obtain ⟨objExp, s1, obj, s2, s3, h1, h2, h3, _⟩ := (linearizeWith_ok_iff _ _ _ _).mp h
+    obtain ⟨e', he', hr⟩ := (simplifyFlat_ok _ _ _).mp h1
+    simp only [Prod.mk.injEq] at hr
+    obtain ⟨rfl, rfl⟩ := hr
+    have hx : normalizeExp (.var "x" : Exp (Ext K)) = some (.var "x") := by
+      simp [normalizeExp, flattenFuel, flattenF, simplify]
+    simp only [exUndefDiv, hx, Option.some.injEq] at he'
+    subst he'
+    rw [linExp] at h2
+    simp only [pure_ok, Prod.mk.injEq] at h2
+    obtain ⟨_, rfl⟩ := h2
+    rw [exUndefDiv_drain _ rfl] at h3
+    cases h3
+  | error e =>
+    unfold linearizeWith at h
+    simp only at h
+    split at h
+    · cases h
+    · rename_i e' hprog
+      simp only [Except.error.injEq] at h
+      subst h
+      simp only [bind_err] at hprog
+      have hx : normalizeExp (.var "x" : Exp (Ext K)) = some (.var "x") := by
+        simp [normalizeExp, flattenFuel, flattenF, simplify]
+      have hsf : ∀ s : St (Ext K), simplifyFlat (exUndefDiv : Model (Ext K)).objective s = .ok (.var "x", s) :=
+        fun s => (simplifyFlat_ok _ _ _).mpr ⟨_, by simpa [exUndefDiv] using hx, rfl⟩
+      rcases hprog with hp | ⟨a, s1, hp, hprog⟩
+      · rw [hsf] at hp; cases hp
+      · rw [hsf] at hp
+        simp only [Except.ok.injEq, Prod.mk.injEq] at hp
+        obtain ⟨rfl, rfl⟩ := hp
+        rcases hprog with hp | ⟨a, s2, hp, hprog⟩
+        · rw [linExp] at hp; cases hp
+        · rw [linExp] at hp
+          have hp' : (a, s2) = (Ctx.fromVar "x" (Arith.one : Ext K), _) := ((pure_ok _ _ _).mp hp)
+          simp only [Prod.mk.injEq] at hp'
+          obtain ⟨rfl, rfl⟩ := hp'
+          rcases hprog with hp | ⟨a, s3, hp, hprog⟩
+          · rw [exUndefDiv_drain _ rfl] at hp
+            simp only [Except.error.injEq] at hp
+            rw [hp]
+          · rw [exUndefDiv_drain _ rfl] at hp; cases hp
 
 /-! ### a decidable sufficient condition for definedness on the piecewise-linear fragment -/
 
